@@ -132,4 +132,945 @@ theorem TablesOk.hasCtrl_eq {T : Tables} (ok : TablesOk T) (s : Str) :
     | none => simp [hl] at h
     | some v => exact ⟨(c, v), lookup_mem hl, List.contains_iff_mem.mpr hc⟩
 
+/-! ## the non-raw encoder and how the reader consumes it -/
+
+/-- the escaping passes of a NON-raw literal fused into one per-character encoder (`q` = its quote) -/
+def encNR (T : Tables) (q c : Char) : Str :=
+  if c = bs then [bs, bs] else if c = q then [bs, q] else (T.ctrl.lookup c).getD [c]
+
+theorem TablesOk.notKey {T : Tables} (ok : TablesOk T) {c : Char} (h : escapedCtrl.contains c = false) :
+    T.ctrl.lookup c = none := by
+  have := ok.isKey c
+  rw [h] at this
+  cases hl : T.ctrl.lookup c with
+  | none => rfl
+  | some v => simp [hl] at this
+
+theorem quote_cases {q : Char} (hq : q = sq ∨ q = dq) :
+    q ≠ bs ∧ q ≠ '\n' ∧ q ≠ '/' ∧ q ≠ ' ' ∧ escapedCtrl.contains q = false ∧ isLineBreak q = false ∧ simpleEscape q = some q := by
+  rcases hq with h | h <;> subst h <;> decide
+
+/-- pushing a whole block in front of a scan result -/
+def pushAll (l : Str) (r : Option (Str × Str)) : Option (Str × Str) := l.foldr push r
+
+theorem pushAll_append (a b : Str) (r) : pushAll (a ++ b) r = pushAll a (pushAll b r) := by
+  simp [pushAll, List.foldr_append]
+
+theorem pushAll_some (l b a : Str) : pushAll l (some (b, a)) = some (l ++ b, a) := by
+  induction l with
+  | nil => rfl
+  | cons c cs ih => simp only [pushAll, List.foldr_cons] at ih ⊢; rw [ih]; rfl
+
+/-- the tokenizer walks over one encoded character -/
+theorem scan1_encNR {T : Tables} (ok : TablesOk T) {q : Char} (hq : q = sq ∨ q = dq) (c : Char) (r : Str) :
+    scan1 q false (encNR T q c ++ r) = pushAll (encNR T q c) (scan1 q false r) := by
+  obtain ⟨hqb, hqn, _, _, hqk, _, _⟩ := quote_cases hq
+  unfold encNR
+  by_cases h1 : c = bs
+  · simp [h1, scan1, pushAll, bs]
+  · by_cases h2 : c = q
+    · subst h2
+      simp [h1, scan1, pushAll, hqn]
+    · simp only [h1, h2, if_false]
+      cases hl : T.ctrl.lookup c with
+      | some v =>
+        obtain ⟨e, hv, _, hlb, _, _, _, _⟩ := ok.val hl
+        subst hv
+        have hen : e ≠ '\n' := by
+          intro h; subst h; simp [isLineBreak] at hlb
+        simp [scan1, pushAll, hen]
+      | none =>
+        have hcn : c ≠ '\n' := by
+          intro h; subst h
+          have := ok.isKey '\n'
+          rw [hl] at this
+          revert this; decide
+        simp [scan1, pushAll, h1, h2, hcn]
+
+theorem scan1_enc {T : Tables} (ok : TablesOk T) {q : Char} (hq : q = sq ∨ q = dq) (s rest : Str) :
+    scan1 q false (s.flatMap (encNR T q) ++ q :: rest) = some (s.flatMap (encNR T q), rest) := by
+  obtain ⟨hqb, _, _, _, _, _, _⟩ := quote_cases hq
+  induction s with
+  | nil => simp [scan1, hqb]
+  | cons c cs ih =>
+    rw [List.flatMap_cons, List.append_assoc, scan1_encNR ok hq, ih, pushAll_some]
+
+theorem unescape_encNR {T : Tables} (ok : TablesOk T) {q : Char} (hq : q = sq ∨ q = dq) (c : Char) (r : Str) :
+    unescape false (encNR T q c ++ r) = (unescape false r).map (c :: ·) := by
+  obtain ⟨hqb, _, _, _, _, _, hqe⟩ := quote_cases hq
+  unfold encNR
+  by_cases h1 : c = bs
+  · subst h1
+    simp [unescape, simpleEscape]
+  · by_cases h2 : c = q
+    · subst h2
+      simp [h1, unescape, hqe]
+    · simp only [h1, h2, if_false]
+      cases hl : T.ctrl.lookup c with
+      | some v =>
+        obtain ⟨e, hv, he, _, _, _, _, _⟩ := ok.val hl
+        subst hv
+        simp [unescape, he]
+      | none =>
+        simp [unescape, h1]
+
+theorem unescape_enc {T : Tables} (ok : TablesOk T) {q : Char} (hq : q = sq ∨ q = dq) (s : Str) :
+    unescape false (s.flatMap (encNR T q)) = some s := by
+  induction s with
+  | nil => rfl
+  | cons c cs ih =>
+    rw [List.flatMap_cons, unescape_encNR ok hq, ih]; rfl
+
+theorem lineBreak_cases {c : Char} (h : isLineBreak c = true) :
+    escapedCtrl.contains c = true ∨ unescapedBreaks.contains c = true := by
+  unfold isLineBreak at h
+  simp only [Bool.or_eq_true, beq_iff_eq] at h
+  rcases h with ((((((((h | h) | h) | h) | h) | h) | h) | h) | h) | h <;> subst h <;> decide
+
+theorem noBreak_enc {T : Tables} (ok : TablesOk T) {q : Char} (hq : q = sq ∨ q = dq) (s : Str)
+    (hs : s.any (fun c => unescapedBreaks.contains c) = false) :
+    (s.flatMap (encNR T q)).any isLineBreak = false := by
+  obtain ⟨_, _, _, _, _, hql, _⟩ := quote_cases hq
+  rw [List.any_eq_false] at hs ⊢
+  intro x hx
+  rw [List.mem_flatMap] at hx
+  obtain ⟨c, hc, hxc⟩ := hx
+  have hcu := hs c hc
+  unfold encNR at hxc
+  by_cases h1 : c = bs
+  · simp [h1] at hxc; subst hxc; decide
+  · by_cases h2 : c = q
+    · subst h2
+      simp [h1] at hxc
+      rcases hxc with h | h <;> subst h
+      · decide
+      · simp [hql]
+    · simp only [h1, h2, if_false] at hxc
+      cases hl : T.ctrl.lookup c with
+      | some v =>
+        obtain ⟨e, hv, _, hlb, _, _, _, _⟩ := ok.val hl
+        subst hv
+        simp [hl] at hxc
+        rcases hxc with h | h <;> subst h
+        · decide
+        · simp [hlb]
+      | none =>
+        simp [hl] at hxc
+        subst hxc
+        intro hb
+        rcases lineBreak_cases hb with h | h
+        · have := ok.isKey x
+          rw [hl, h] at this
+          simp at this
+        · exact hcu h
+
+/-- the three passes (double the backslashes, escape the quote, translate control characters) are the
+per-character encoder -/
+theorem enc_passes {T : Tables} (ok : TablesOk T) {q : Char} (hq : q = sq ∨ q = dq) (x : Str) :
+    translate T.ctrl (replaceAll [q] [bs, q] (replaceAll [bs] [bs, bs] x)) = x.flatMap (encNR T q) := by
+  obtain ⟨hqb, _, _, _, hqk, _, _⟩ := quote_cases hq
+  rw [replaceAll_single, replaceAll_single]
+  unfold translate
+  rw [List.flatMap_assoc, List.flatMap_assoc]
+  apply flatMap_congr'
+  intro c _
+  have hb : T.ctrl.lookup bs = none := ok.notKey (by decide)
+  have hqn : T.ctrl.lookup q = none := ok.notKey hqk
+  unfold encNR
+  by_cases h1 : c = bs
+  · subst h1
+    simp [hqb.symm, hb, Ne.symm hqb]
+  · by_cases h2 : c = q
+    · subst h2
+      simp [h1, hb, hqn]
+    · simp [h1, h2]
+
+/-! ## raw bodies and triple quotes -/
+
+theorem getLast?_cons_ne {c : Char} {t : Str} (ht : t ≠ []) : (c :: t).getLast? = t.getLast? := by
+  cases t with
+  | nil => exact absurd rfl ht
+  | cons d r => exact List.getLast?_cons_cons
+
+/-- the tokenizer walks over a RAW body that has no quote of its own kind, no newline and does not end
+in a backslash (a backslash still "protects" the next character from ending the string) -/
+theorem scan1_raw {q : Char} (hq : q = sq ∨ q = dq) (v rest : Str) (esc : Bool)
+    (hqv : q ∉ v) (hn : '\n' ∉ v) (he : v = [] → esc = false) (hl : v.getLast? ≠ some bs) :
+    scan1 q esc (v ++ q :: rest) = some (v, rest) := by
+  obtain ⟨hqb, _, _, _, _, _, _⟩ := quote_cases hq
+  induction v generalizing esc with
+  | nil =>
+    rw [he rfl]
+    simp [scan1, hqb]
+  | cons c t ih =>
+    have hqt : q ∉ t := fun h => hqv (List.mem_cons_of_mem _ h)
+    have hnt : '\n' ∉ t := fun h => hn (List.mem_cons_of_mem _ h)
+    have hcq : c ≠ q := fun h => hqv (h ▸ List.mem_cons_self ..)
+    have hcn : c ≠ '\n' := fun h => hn (h ▸ List.mem_cons_self ..)
+    have hlt : t.getLast? ≠ some bs := by
+      cases t with
+      | nil => simp
+      | cons d r => rwa [List.getLast?_cons_cons] at hl
+    cases esc with
+    | true =>
+      simp only [List.cons_append, scan1, beq_iff_eq, hcn, if_false]
+      rw [ih false hqt hnt (fun _ => rfl) hlt]; rfl
+    | false =>
+      by_cases hcb : c = bs
+      · subst hcb
+        have htne : t ≠ [] := by
+          intro h; subst h; simp at hl
+        simp only [List.cons_append, scan1, beq_self_eq_true, if_true]
+        rw [ih true hqt hnt (fun h => absurd h htne) hlt]; rfl
+      · simp only [List.cons_append, scan1, beq_iff_eq, hcb, hcq, hcn, if_false]
+        rw [ih false hqt hnt (fun _ => rfl) hlt]; rfl
+
+theorem scan3_raw {q : Char} (hq : q = sq ∨ q = dq) (v rest : Str) (esc : Bool)
+    (hqv : q ∉ v) (he : v = [] → esc = false) (hl : v.getLast? ≠ some bs) :
+    scan3 q esc (v ++ q :: q :: q :: rest) = some (v, rest) := by
+  obtain ⟨hqb, _, _, _, _, _, _⟩ := quote_cases hq
+  induction v generalizing esc with
+  | nil =>
+    rw [he rfl]
+    simp [scan3, hqb]
+  | cons c t ih =>
+    have hqt : q ∉ t := fun h => hqv (List.mem_cons_of_mem _ h)
+    have hcq : c ≠ q := fun h => hqv (h ▸ List.mem_cons_self ..)
+    have hlt : t.getLast? ≠ some bs := by
+      cases t with
+      | nil => simp
+      | cons d r => rwa [List.getLast?_cons_cons] at hl
+    cases esc with
+    | true =>
+      simp only [List.cons_append, scan3]
+      rw [ih false hqt (fun _ => rfl) hlt]; rfl
+    | false =>
+      by_cases hcb : c = bs
+      · subst hcb
+        have htne : t ≠ [] := by
+          intro h; subst h; simp at hl
+        simp only [List.cons_append, scan3, beq_self_eq_true, if_true]
+        rw [ih true hqt (fun h => absurd h htne) hlt]; rfl
+      · have : (c == q) = false := beq_eq_false_iff_ne.mpr hcq
+        simp only [List.cons_append, scan3, beq_iff_eq, hcb, this, Bool.false_and, if_false]
+        rw [ih false hqt (fun _ => rfl) hlt]; rfl
+
+/-- the triple-quote tokenizer walks over one encoded character that is not the quote -/
+theorem scan3_encNR {T : Tables} (ok : TablesOk T) {q : Char} (hq : q = sq ∨ q = dq) (c : Char) (r : Str) :
+    scan3 q false (encNR T q c ++ r) = pushAll (encNR T q c) (scan3 q false r) := by
+  obtain ⟨hqb, hqn, _, _, hqk, _, _⟩ := quote_cases hq
+  unfold encNR
+  by_cases h1 : c = bs
+  · simp [h1, scan3, pushAll]
+  · by_cases h2 : c = q
+    · subst h2
+      simp [h1, scan3, pushAll]
+    · simp only [h1, h2, if_false]
+      cases hl : T.ctrl.lookup c with
+      | some v =>
+        obtain ⟨e, hv, _, _, _, _, _, _⟩ := ok.val hl
+        subst hv
+        simp [scan3, pushAll]
+      | none =>
+        have : (c == q) = false := beq_eq_false_iff_ne.mpr h2
+        simp [scan3, pushAll, h1, this]
+
+theorem scan3_enc {T : Tables} (ok : TablesOk T) {q : Char} (hq : q = sq ∨ q = dq) (s rest : Str) :
+    scan3 q false (s.flatMap (encNR T q) ++ q :: q :: q :: rest) = some (s.flatMap (encNR T q), rest) := by
+  obtain ⟨hqb, _, _, _, _, _, _⟩ := quote_cases hq
+  induction s with
+  | nil => simp [scan3, hqb]
+  | cons c cs ih =>
+    rw [List.flatMap_cons, List.append_assoc, scan3_encNR ok hq, ih, pushAll_some]
+
+/-! ## bare words -/
+
+theorem splitAtChar_append (a : Char) (w r : Str) (h : a ∉ w) : splitAtChar a (w ++ a :: r) = (w, a :: r) := by
+  induction w with
+  | nil => simp [splitAtChar]
+  | cons c t ih =>
+    have hc : (c == a) = false := beq_eq_false_iff_ne.mpr (fun e => h (e ▸ List.mem_cons_self ..))
+    have ht : a ∉ t := fun e => h (List.mem_cons_of_mem _ e)
+    simp [splitAtChar, hc, ih ht]
+
+theorem splitAtChar_none (a : Char) (w : Str) (h : a ∉ w) : splitAtChar a w = (w, []) := by
+  induction w with
+  | nil => simp [splitAtChar]
+  | cons c t ih =>
+    have hc : (c == a) = false := beq_eq_false_iff_ne.mpr (fun e => h (e ▸ List.mem_cons_self ..))
+    have ht : a ∉ t := fun e => h (List.mem_cons_of_mem _ e)
+    simp [splitAtChar, hc, ih ht]
+
+theorem bangSplit_snoc_slash : ∀ (s : Str), bangSplit s = none → bangSplit (s ++ ['/']) = none
+  | [], _ => by simp [bangSplit]
+  | [c], h => by
+    by_cases hc : c = '!'
+    · subst hc; simp [bangSplit] at h
+    · have : (c == '!') = false := beq_eq_false_iff_ne.mpr hc
+      simp [bangSplit, this]
+  | c :: d :: r, h => by
+    by_cases hc : c = '!'
+    · subst hc
+      by_cases hd : d = '='
+      · subst hd
+        simp only [bangSplit, beq_self_eq_true, if_true, Option.map_eq_none_iff] at h
+        simp [bangSplit, bangSplit_snoc_slash r h]
+      · have : (d == '=') = false := beq_eq_false_iff_ne.mpr hd
+        simp [bangSplit, this] at h
+    · have hcf : (c == '!') = false := beq_eq_false_iff_ne.mpr hc
+      simp only [bangSplit, hcf, Bool.false_eq_true, if_false, Option.map_eq_none_iff] at h
+      have := bangSplit_snoc_slash (d :: r) h
+      simp only [List.cons_append] at this
+      simp [bangSplit, hcf, this]
+
+theorem pyStmt_snoc_slash (s : Str) (hs : s ≠ []) (h : pyStmt s = false) : pyStmt (s ++ ['/']) = false := by
+  match s, hs with
+  | [c], _ =>
+    simp only [pyStmt, List.head?_nil] at h
+    simp only [List.cons_append, List.nil_append, pyStmt, List.head?_cons]
+    by_cases h1 : c = '='
+    · subst h1; simp at h
+    · by_cases h2 : c = ':'
+      · subst h2; simp at h
+      · have e1 : (c == '=') = false := beq_eq_false_iff_ne.mpr h1
+        have e2 : (c == ':') = false := beq_eq_false_iff_ne.mpr h2
+        simp [e1, e2]
+  | c :: d :: r, _ =>
+    simpa [pyStmt] using h
+
+/-! ## the reader on the completer's texts -/
+
+theorem all_space_noBreak (sp : Str) (h : sp.all (· == ' ') = true) : sp.any isLineBreak = false := by
+  rw [List.any_eq_false]
+  intro c hc
+  have := List.all_eq_true.mp h c hc
+  have : c = ' ' := by simpa using this
+  subst this; decide
+
+theorem any_append_false {p : Char → Bool} {a b : Str} (ha : a.any p = false) (hb : b.any p = false) :
+    (a ++ b).any p = false := by simp [List.any_append, ha, hb]
+
+/-- the first two characters after a single opening quote are not two more quotes -/
+theorem take2_ne {q : Char} (hq : q = sq ∨ q = dq) (body sp : Str) (hb : body.head? ≠ some q)
+    (hsp : sp.all (· == ' ') = true) : ((body ++ q :: sp).take 2 == [q, q]) = false := by
+  obtain ⟨_, _, _, hqs, _, _, _⟩ := quote_cases hq
+  apply beq_eq_false_iff_ne.mpr
+  match body, hb with
+  | [], _ =>
+    match sp, hsp with
+    | [], _ => simp
+    | c :: r, hsp =>
+      have : c = ' ' := by simpa using (List.all_eq_true.mp hsp c (List.mem_cons_self ..))
+      subst this
+      simp [Ne.symm hqs]
+  | [a], hb =>
+    have : a ≠ q := by simpa using hb
+    simp [this]
+  | a :: b :: r, hb =>
+    have : a ≠ q := by simpa using hb
+    simp [this]
+
+theorem parseOpening_single {q : Char} (hq : q = sq ∨ q = dq) (rest : Str)
+    (h : (rest.take 2 == [q, q]) = false) : parseOpening (q :: rest) = some (false, q, false, rest) := by
+  have hr : ¬(q = 'r' ∨ q = 'R') := by rcases hq with h | h <;> subst h <;> decide
+  have hqq : (q == sq || q == dq) = true := by rcases hq with h | h <;> subst h <;> decide
+  have : ((q == 'r' || q == 'R') && (rest.head? == some sq || rest.head? == some dq)) = false := by
+    have : (q == 'r' || q == 'R') = false := by
+      rcases hq with h | h <;> subst h <;> decide
+    simp [this]
+  simp only [parseOpening, this, hqq, h]
+  simp
+  exact ⟨hq, beq_eq_false_iff_ne.mp h⟩
+
+theorem parseOpening_raw_single {q : Char} (hq : q = sq ∨ q = dq) (rest : Str)
+    (h : (rest.take 2 == [q, q]) = false) : parseOpening ('r' :: q :: rest) = some (true, q, false, rest) := by
+  have hqq : (q == sq || q == dq) = true := by rcases hq with h | h <;> subst h <;> decide
+  have h1 : (some q == some sq || some q == some dq) = true := by rcases hq with h | h <;> subst h <;> decide
+  simp only [parseOpening, List.head?_cons, h1, hqq, h]
+  simp
+  exact ⟨hq, beq_eq_false_iff_ne.mp h⟩
+
+theorem parseOpening_triple {q : Char} (hq : q = sq ∨ q = dq) (rest : Str) :
+    parseOpening (q :: q :: q :: rest) = some (false, q, true, rest) := by
+  have hqq : (q == sq || q == dq) = true := by rcases hq with h | h <;> subst h <;> decide
+  have : (q == 'r' || q == 'R') = false := by rcases hq with h | h <;> subst h <;> decide
+  simp [parseOpening, this, hqq]
+
+theorem parseOpening_raw_triple {q : Char} (hq : q = sq ∨ q = dq) (rest : Str) :
+    parseOpening ('r' :: q :: q :: q :: rest) = some (true, q, true, rest) := by
+  have hqq : (q == sq || q == dq) = true := by rcases hq with h | h <;> subst h <;> decide
+  have h1 : (some q == some sq || some q == some dq) = true := by rcases hq with h | h <;> subst h <;> decide
+  simp [parseOpening, h1, hqq]
+
+theorem head_enc_ne {T : Tables} (ok : TablesOk T) {q : Char} (hq : q = sq ∨ q = dq) (v : Str) :
+    (v.flatMap (encNR T q)).head? ≠ some q := by
+  obtain ⟨hqb, _, _, _, _, _, _⟩ := quote_cases hq
+  cases v with
+  | nil => simp
+  | cons c t =>
+    rw [List.flatMap_cons]
+    unfold encNR
+    by_cases h1 : c = bs
+    · simp [h1, Ne.symm hqb]
+    · by_cases h2 : c = q
+      · subst h2
+        simp [h1, Ne.symm hqb]
+      · simp only [h1, h2, if_false]
+        cases hl : T.ctrl.lookup c with
+        | some w =>
+          obtain ⟨e, hv, _, _, _, _, _, _⟩ := ok.val hl
+          subst hv
+          simp [Ne.symm hqb]
+        | none => simp [h2]
+
+/-- reading a NON-raw single-quoted literal produced by the encoder -/
+theorem readBack_nonraw1 {T : Tables} (ok : TablesOk T) {q : Char} (hq : q = sq ∨ q = dq) (E : Env) (v sp : Str)
+    (hsp : sp.all (· == ' ') = true) (hv : v.any (fun c => unescapedBreaks.contains c) = false)
+    (hexp : expandPath T E v = v) :
+    readBack T E (q :: (v.flatMap (encNR T q) ++ q :: sp)) = .args [v] := by
+  obtain ⟨_, _, _, _, _, hql, _⟩ := quote_cases hq
+  have hnb : (q :: (v.flatMap (encNR T q) ++ q :: sp)).any isLineBreak = false := by
+    simp only [List.any_cons, hql, Bool.false_or]
+    apply any_append_false (noBreak_enc ok hq v hv)
+    simp only [List.any_cons, hql, Bool.false_or]
+    exact all_space_noBreak sp hsp
+  have hpo := parseOpening_single hq _ (take2_ne hq _ sp (head_enc_ne ok hq v) hsp)
+  simp only [readBack, hnb, hpo, Bool.false_eq_true, if_false, scan1_enc ok hq, hsp, Bool.not_true,
+    unescape_enc ok hq, hexp]
+
+theorem noBreak_of {v : Str} (h1 : v.any (fun c => unescapedBreaks.contains c) = false)
+    (h2 : v.any (fun c => escapedCtrl.contains c) = false) : v.any isLineBreak = false := by
+  rw [List.any_eq_false] at *
+  intro c hc hb
+  rcases lineBreak_cases hb with h | h
+  · exact h2 c hc h
+  · exact h1 c hc h
+
+theorem head_ne_of_not_mem {q : Char} {v : Str} (h : q ∉ v) : v.head? ≠ some q := by
+  cases v with
+  | nil => simp
+  | cons c t =>
+    simp only [List.head?_cons, ne_eq, Option.some.injEq]
+    exact fun e => h (e ▸ List.mem_cons_self ..)
+
+theorem nl_not_mem_of_noBreak {v : Str} (h : v.any isLineBreak = false) : '\n' ∉ v := by
+  intro hm
+  have := List.any_eq_false.mp h '\n' hm
+  exact this (by decide)
+
+/-- reading a RAW single-quoted literal whose body is the value itself -/
+theorem readBack_raw1 {T : Tables} {q : Char} (hq : q = sq ∨ q = dq) (E : Env) (v sp : Str)
+    (hsp : sp.all (· == ' ') = true) (hnb : v.any isLineBreak = false) (hqv : q ∉ v)
+    (hl : v.getLast? ≠ some bs) :
+    readBack T E ('r' :: q :: (v ++ q :: sp)) = .args [v] := by
+  obtain ⟨_, _, _, _, _, hql, _⟩ := quote_cases hq
+  have hnb' : ('r' :: q :: (v ++ q :: sp)).any isLineBreak = false := by
+    have : isLineBreak 'r' = false := by decide
+    simp only [List.any_cons, hql, this, Bool.false_or]
+    apply any_append_false hnb
+    simp only [List.any_cons, hql, Bool.false_or]
+    exact all_space_noBreak sp hsp
+  have hpo := parseOpening_raw_single hq _ (take2_ne hq v sp (head_ne_of_not_mem hqv) hsp)
+  simp only [readBack, hnb', hpo, Bool.false_eq_true, if_false,
+    scan1_raw hq v sp false hqv (nl_not_mem_of_noBreak hnb) (fun _ => rfl) hl, hsp, Bool.not_true, if_true]
+
+/-- reading a NON-raw triple-quoted literal produced by the encoder -/
+theorem readBack_nonraw3 {T : Tables} (ok : TablesOk T) {q : Char} (hq : q = sq ∨ q = dq) (E : Env) (v sp : Str)
+    (hsp : sp.all (· == ' ') = true) (hv : v.any (fun c => unescapedBreaks.contains c) = false)
+    (hexp : expandPath T E v = v) :
+    readBack T E (q :: q :: q :: (v.flatMap (encNR T q) ++ q :: q :: q :: sp)) = .args [v] := by
+  obtain ⟨_, _, _, _, _, hql, _⟩ := quote_cases hq
+  have hnb : (q :: q :: q :: (v.flatMap (encNR T q) ++ q :: q :: q :: sp)).any isLineBreak = false := by
+    simp only [List.any_cons, hql, Bool.false_or]
+    apply any_append_false (noBreak_enc ok hq v hv)
+    simp only [List.any_cons, hql, Bool.false_or]
+    exact all_space_noBreak sp hsp
+  simp only [readBack, hnb, parseOpening_triple hq, Bool.false_eq_true, if_false, if_true, scan3_enc ok hq, hsp,
+    Bool.not_true, unescape_enc ok hq, hexp]
+
+/-- reading a RAW triple-quoted literal whose body is the value itself -/
+theorem readBack_raw3 {T : Tables} {q : Char} (hq : q = sq ∨ q = dq) (E : Env) (v sp : Str)
+    (hsp : sp.all (· == ' ') = true) (hnb : v.any isLineBreak = false) (hqv : q ∉ v)
+    (hl : v.getLast? ≠ some bs) :
+    readBack T E ('r' :: q :: q :: q :: (v ++ q :: q :: q :: sp)) = .args [v] := by
+  obtain ⟨_, _, _, _, _, hql, _⟩ := quote_cases hq
+  have hnb' : ('r' :: q :: q :: q :: (v ++ q :: q :: q :: sp)).any isLineBreak = false := by
+    have : isLineBreak 'r' = false := by decide
+    simp only [List.any_cons, hql, this, Bool.false_or]
+    apply any_append_false hnb
+    simp only [List.any_cons, hql, Bool.false_or]
+    exact all_space_noBreak sp hsp
+  simp only [readBack, hnb', parseOpening_raw_triple hq, Bool.false_eq_true, if_false, if_true,
+    scan3_raw hq v sp false hqv (fun _ => rfl) hl, hsp, Bool.not_true]
+
+/-- reading a bare word none of whose characters is special to the reader -/
+theorem readBack_bare {T : Tables} (E : Env) (w sp : Str) (hsp : sp = [] ∨ sp = [' ']) (hw : w ≠ [])
+    (hsafe : w.any (fun c => bareUnsafe.contains c) = false) (hnb : w.any isLineBreak = false)
+    (hbang : bangSplit w = none) (hodd : w.any (oddChar T) = false)
+    (hkw : readerKeywords.contains w = false) (hpy : pyStmt w = false) (hexp : expandPath T E w = w) :
+    readBack T E (w ++ sp) = .args [w] := by
+  have hsp' : sp.all (· == ' ') = true := by rcases hsp with h | h <;> subst h <;> rfl
+  have hmem : ∀ c, bareUnsafe.contains c = true → c ∉ w := by
+    intro c hc hm
+    have := List.any_eq_false.mp hsafe c hm
+    exact this hc
+  have hnb' : (w ++ sp).any isLineBreak = false := any_append_false hnb (all_space_noBreak sp hsp')
+  have hsq : sq ∉ w := hmem sq (by decide)
+  have hdq : dq ∉ w := hmem dq (by decide)
+  have hspc : ' ' ∉ w := hmem ' ' (by decide)
+  have hpo : parseOpening (w ++ sp) = none := by
+    match w, hw, hsq, hdq with
+    | [c], _, hsq, hdq =>
+      have h1 : c ≠ sq := fun e => hsq (e ▸ List.mem_cons_self ..)
+      have h2 : c ≠ dq := fun e => hdq (e ▸ List.mem_cons_self ..)
+      have e1 : ¬((' ' : Char) = sq) := by decide
+      have e2 : ¬((' ' : Char) = dq) := by decide
+      rcases hsp with h | h <;> subst h <;> simp [parseOpening, h1, h2, e1, e2]
+    | c :: d :: r, _, hsq, hdq =>
+      have h1 : c ≠ sq := fun e => hsq (e ▸ List.mem_cons_self ..)
+      have h2 : c ≠ dq := fun e => hdq (e ▸ List.mem_cons_self ..)
+      have h3 : d ≠ sq := fun e => hsq (e ▸ List.mem_cons_of_mem _ (List.mem_cons_self ..))
+      have h4 : d ≠ dq := fun e => hdq (e ▸ List.mem_cons_of_mem _ (List.mem_cons_self ..))
+      simp [parseOpening, h1, h2, h3, h4]
+  have hsplit : splitAtChar ' ' (w ++ sp) = (w, sp) := by
+    rcases hsp with h | h <;> subst h
+    · simpa using splitAtChar_none ' ' w hspc
+    · exact splitAtChar_append ' ' w [] hspc
+  have hwe : w.isEmpty = false := by cases w with | nil => exact absurd rfl hw | cons _ _ => rfl
+  simp only [readBack, hnb', hpo, hsplit, hwe, Bool.false_eq_true, if_false, readBare, hbang, hsp', hsafe, hodd, hkw,
+    hpy, Bool.not_true, hexp]
+
+/-! ## the shapes of `_quote_paths`' output -/
+
+theorem isInfix_nil (x : Str) : isInfix [] x = true := by cases x <;> simp [isInfix, List.isPrefixOf]
+
+theorem isPrefixOf_mem {pat x : Str} (h : pat.isPrefixOf x = true) : ∀ c ∈ pat, c ∈ x := by
+  induction pat generalizing x with
+  | nil => intro c hc; cases hc
+  | cons a as ih =>
+    cases x with
+    | nil => simp [List.isPrefixOf] at h
+    | cons b bs' =>
+      simp only [List.isPrefixOf, Bool.and_eq_true, beq_iff_eq] at h
+      intro c hc
+      rcases List.mem_cons.mp hc with e | e
+      · subst e; rw [h.1]; exact List.mem_cons_self ..
+      · exact List.mem_cons_of_mem _ (ih h.2 c e)
+
+theorem isInfix_mem {pat x : Str} (h : isInfix pat x = true) : ∀ c ∈ pat, c ∈ x := by
+  induction x with
+  | nil =>
+    cases pat with
+    | nil => intro c hc; cases hc
+    | cons a as => simp [isInfix] at h
+  | cons b bs' ih =>
+    simp only [isInfix, Bool.or_eq_true] at h
+    rcases h with h | h
+    · exact isPrefixOf_mem h
+    · intro c hc; exact List.mem_cons_of_mem _ (ih h c hc)
+
+theorem isInfix_false_of_not_mem {pat x : Str} {q : Char} (hq : q ∈ pat) (hx : q ∉ x) : isInfix pat x = false := by
+  cases h : isInfix pat x with
+  | false => rfl
+  | true => exact absurd (isInfix_mem h q hq) hx
+
+/-- `_quote_paths` on a name that needs no quotes, nothing opened: the name and its tail -/
+theorem quoteOne_bare {T : Tables} (s : Str) (d ap : Bool) (hn : needsQuotes T s = false) (hc : hasCtrl T s = false) :
+    quoteOne T s [] [] d ap = s ++ (if d then ['/'] else [' ']) := by
+  simp [quoteOne, autoQuote, hn, effStart, tailOf, escBody, isRawStart, isInfix_nil, replaceAll, hc, wrap]
+
+/-- nothing opened and the name needs quotes: as if the user had opened the chosen quote -/
+theorem quoteOne_auto {T : Tables} (s : Str) (d ap : Bool) (hn : needsQuotes T s = true)
+    (hq : (T.quoteToUse s).isEmpty = false) :
+    quoteOne T s [] [] d ap = quoteOne T s (T.quoteToUse s) (T.quoteToUse s) d ap := by
+  simp [quoteOne, autoQuote, hn, hq]
+
+def dirTail (d : Bool) : Str := if d then ['/'] else []
+
+theorem tailOf_quoted {e : Str} (he : e.isEmpty = false) (d : Bool) : tailOf e d = dirTail d := by
+  simp [tailOf, dirTail, he]
+
+theorem mem_dirTail {c : Char} {d : Bool} (h : c ∈ dirTail d) : c = '/' := by
+  unfold dirTail at h
+  cases d <;> simp at h
+  exact h
+
+/-- the conditional passes of a non-raw literal with a one-character quote are the encoder -/
+theorem escBody_nonraw1 {T : Tables} (ok : TablesOk T) {q : Char} (hq : q = sq ∨ q = dq) (s0 : Str) (d : Bool) :
+    escBody T s0 [q] [q] (s0 ++ dirTail d) = (s0 ++ dirTail d).flatMap (encNR T q) := by
+  obtain ⟨hqb, _, hqs, _, hqk, _, _⟩ := quote_cases hq
+  have hraw : isRawStart [q] = false := by rcases hq with h | h <;> subst h <;> decide
+  simp only [escBody, hraw, List.isEmpty_cons, Bool.not_false, Bool.false_and, Bool.true_and, Bool.false_eq_true,
+    if_false, if_true, List.flatMap_cons, List.flatMap_nil, List.append_nil]
+  generalize hx : s0 ++ dirTail d = x
+  -- the quote pass is the per-character map whether or not a quote is there
+  have hpass2 : (if isInfix [q] (replaceAll [bs] [bs, bs] x) = true
+      then replaceAll [q] [bs, q] (replaceAll [bs] [bs, bs] x) else replaceAll [bs] [bs, bs] x)
+      = replaceAll [q] [bs, q] (replaceAll [bs] [bs, bs] x) := by
+    split
+    · rfl
+    · rename_i h
+      rw [replaceAll_single q]
+      symm
+      apply flatMap_id_of
+      intro c hc
+      have : c ≠ q := by
+        intro e; subst e
+        rw [isInfix_singleton] at h
+        exact h (List.contains_iff_mem.mpr hc)
+      simp [this]
+  rw [hpass2]
+  by_cases hc : hasCtrl T s0 = true
+  · simp only [hc, if_true]
+    exact enc_passes ok hq x
+  · have hc' : hasCtrl T s0 = false := by simpa using hc
+    simp only [hc', Bool.false_eq_true, if_false]
+    rw [← enc_passes ok hq x]
+    unfold translate
+    symm
+    apply flatMap_id_of
+    intro c hcm
+    -- every character there comes from s0, the tail, or is a backslash / the quote: none is a key
+    have hsrc : c = bs ∨ c = q ∨ c ∈ x := by
+      rw [replaceAll_single, replaceAll_single, List.flatMap_assoc] at hcm
+      obtain ⟨a, ha, hca⟩ := List.mem_flatMap.mp hcm
+      by_cases h1 : a = bs
+      · subst h1
+        simp [Ne.symm hqb] at hca
+        exact Or.inl hca
+      · by_cases h2 : a = q
+        · subst h2
+          simp [h1] at hca
+          rcases hca with e | e
+          · exact Or.inl e
+          · exact Or.inr (Or.inl e)
+        · simp [h1, h2] at hca
+          subst hca
+          exact Or.inr (Or.inr ha)
+    have hnk : escapedCtrl.contains c = false := by
+      rcases hsrc with e | e | e
+      · subst e; decide
+      · subst e; exact hqk
+      · rw [← hx] at e
+        rcases List.mem_append.mp e with e | e
+        · rw [ok.hasCtrl_eq] at hc'
+          have := List.any_eq_false.mp hc' c e
+          simpa using this
+        · rw [mem_dirTail e]; decide
+    simp [ok.notKey hnk]
+
+theorem mem_dbl {c : Char} {x : Str} (h : c ∈ replaceAll [bs] [bs, bs] x) : c = bs ∨ c ∈ x := by
+  rw [replaceAll_single] at h
+  obtain ⟨a, ha, hca⟩ := List.mem_flatMap.mp h
+  by_cases h1 : a = bs
+  · subst h1; simp at hca; exact Or.inl hca
+  · simp [h1] at hca; subst hca; exact Or.inr ha
+
+/-- a raw literal whose body needs no repair is the candidate itself -/
+theorem escBody_raw {T : Tables} (s0 start end_ x : Str) (hbs : endsWith x [bs] = false)
+    (hinf : isInfix end_ x = false) (hc : hasCtrl T s0 = false) (hraw : isRawStart start = true) :
+    escBody T s0 start end_ x = x := by
+  simp [escBody, hraw, hbs, hinf, hc]
+
+/-- a non-raw triple-quoted literal of a candidate without that quote: the same encoder -/
+theorem escBody_nonraw3 {T : Tables} (ok : TablesOk T) {q : Char} (hq : q = sq ∨ q = dq) (s0 : Str) (d : Bool)
+    (hqs : q ∉ s0) :
+    escBody T s0 [q, q, q] [q, q, q] (s0 ++ dirTail d) = (s0 ++ dirTail d).flatMap (encNR T q) := by
+  obtain ⟨hqb, _, hqsl, _, _, _, _⟩ := quote_cases hq
+  rw [← escBody_nonraw1 ok hq s0 d]
+  have hraw1 : isRawStart [q] = false := by rcases hq with h | h <;> subst h <;> decide
+  have hraw3 : isRawStart [q, q, q] = false := by rcases hq with h | h <;> subst h <;> decide
+  have hqx : q ∉ replaceAll [bs] [bs, bs] (s0 ++ dirTail d) := by
+    intro h
+    rcases mem_dbl h with e | e
+    · exact hqb e
+    · rcases List.mem_append.mp e with e | e
+      · exact hqs e
+      · exact hqsl (mem_dirTail e)
+  have h1 : isInfix [q] (replaceAll [bs] [bs, bs] (s0 ++ dirTail d)) = false :=
+    isInfix_false_of_not_mem (List.mem_cons_self ..) hqx
+  have h3 : isInfix [q, q, q] (replaceAll [bs] [bs, bs] (s0 ++ dirTail d)) = false :=
+    isInfix_false_of_not_mem (List.mem_cons_self ..) hqx
+  simp [escBody, hraw1, hraw3, h1, h3]
+
+theorem endsWith_bs_iff (x : Str) : endsWith x [bs] = true ↔ x.getLast? = some bs := by
+  unfold endsWith
+  rw [List.isSuffixOf_iff_suffix, List.getLast?_eq_some_iff]
+  constructor
+  · rintro ⟨t, ht⟩; exact ⟨t, ht.symm⟩
+  · rintro ⟨t, ht⟩; exact ⟨t, ht.symm⟩
+
+theorem getLast?_append_dirTail (s : Str) (d : Bool) (h : d = false → s.getLast? ≠ some bs) :
+    (s ++ dirTail d).getLast? ≠ some bs := by
+  cases d with
+  | true => simp [dirTail, bs]
+  | false => simpa [dirTail] using h rfl
+
+/-! ## the round trip per style, from the facts `styleClasses = []` provides -/
+
+theorem when_nil {b : Bool} {c : Cls} : PathQuote.when b c = [] ↔ b = false := by cases b <;> simp [PathQuote.when]
+
+theorem needsRaw_eq {T : Tables} (ok : TablesOk T) (s : Str) :
+    needsRaw T s = ((s.contains bs || s.contains '$') && !(s.any fun c => escapedCtrl.contains c)) := by
+  simp [needsRaw, ok.hasCtrl_eq]
+
+theorem wrap_text (start body : Str) (q : Str) (d ap : Bool) (hq : q.isEmpty = false) :
+    wrap start q body d ap ++ (if ap then [] else q) = start ++ (body ++ (q ++ (if !d && ap then [' '] else []))) := by
+  cases ap <;> cases d <;> simp [wrap, hq]
+
+theorem sp_all (d ap : Bool) : (if !d && ap then [' '] else ([] : Str)).all (· == ' ') = true := by
+  cases d <;> cases ap <;> rfl
+
+theorem noUB_append_dirTail {s : Str} (d : Bool) (h : s.any (fun c => unescapedBreaks.contains c) = false) :
+    (s ++ dirTail d).any (fun c => unescapedBreaks.contains c) = false := by
+  apply any_append_false h
+  cases d <;> simp [dirTail] <;> decide
+
+theorem noBreak_append_dirTail {s : Str} (d : Bool) (h : s.any isLineBreak = false) :
+    (s ++ dirTail d).any isLineBreak = false := by
+  apply any_append_false h
+  cases d <;> simp [dirTail] <;> decide
+
+theorem not_mem_append_dirTail {q : Char} (hq : q = sq ∨ q = dq) {s : Str} (d : Bool) (h : q ∉ s) : q ∉ s ++ dirTail d := by
+  obtain ⟨_, _, hqs, _, _, _, _⟩ := quote_cases hq
+  intro hm
+  rcases List.mem_append.mp hm with e | e
+  · exact h e
+  · exact hqs (mem_dirTail e)
+
+/-- the user opened (or the completer chose) a one-character quote -/
+theorem core_q1 {T : Tables} (ok : TablesOk T) (E : Env) (name : Str) {q : Char} (hq : q = sq ∨ q = dq)
+    (start0 : Str) (hst : start0 = [q] ∨ start0 = ['r', q]) (dfs ap : Bool)
+    (hA : normName name = name) (hB : name.any (fun c => unescapedBreaks.contains c) = false)
+    (hg : styleClasses T E name start0 [q] dfs = []) :
+    readBack T E (regular T E name start0 [q] dfs ap ++ (if ap then [] else [q])) =
+      .args [name ++ dirTail (isDirEff T E name name dfs)] := by
+  obtain ⟨hqb, _, hqs, _, hqk, _, _⟩ := quote_cases hq
+  have hr1 : isRawStart [q] = false := by rcases hq with h | h <;> subst h <;> decide
+  have hr2 : isRawStart ['r', q] = true := by simp [isRawStart]
+  have hne : start0.isEmpty = false := by rcases hst with h | h <;> subst h <;> rfl
+  generalize hd : isDirEff T E name name dfs = d at *
+  simp only [regular, hA, hd]
+  simp only [styleClasses, hA, hd, hne, Bool.false_and, Bool.false_eq_true, if_false, List.isEmpty_cons,
+    Bool.not_false, Bool.true_and] at hg
+  have hauto : autoQuote T name start0 [q] = (start0, [q]) := by simp [autoQuote, hne]
+  have htail : tailOf [q] d = dirTail d := tailOf_quoted rfl d
+  have hv : (if d = true then ['/'] else ([] : Str)) = dirTail d := rfl
+  rw [hv] at hg
+  by_cases hraw : (isRawStart start0 || ((name.contains bs || name.contains '$') && !(name.any fun c => escapedCtrl.contains c))) = true
+  · -- a raw literal
+    simp only [hraw, if_true, List.append_eq_nil_iff, when_nil] at hg
+    obtain ⟨⟨⟨⟨⟨h1, h2⟩, h3⟩, _⟩, _⟩, _⟩ := hg
+    have heff : effStart T name start0 = ['r', q] := by
+      rcases hst with h | h <;> subst h
+      · have : needsRaw T name = true := by
+          rw [needsRaw_eq ok]; simpa [hr1] using hraw
+        simp [effStart, hr1, this]
+      · simp [effStart, hr2]
+    have hctrl : hasCtrl T name = false := by rw [ok.hasCtrl_eq]; exact h3
+    have hqn : q ∉ name := by
+      intro hm
+      rw [isInfix_singleton] at h2
+      rw [List.contains_iff_mem.mpr hm] at h2
+      exact absurd h2 (by decide)
+    have hlast : (name ++ dirTail d).getLast? ≠ some bs := by
+      apply getLast?_append_dirTail
+      intro hdf
+      rw [hdf] at h1
+      intro hl
+      have := (endsWith_bs_iff name).mpr hl
+      simp [this] at h1
+    have hbody : escBody T name ['r', q] [q] (name ++ dirTail d) = name ++ dirTail d := by
+      apply escBody_raw _ _ _ _ _ _ hctrl hr2
+      · cases hh : endsWith (name ++ dirTail d) [bs] with
+        | false => rfl
+        | true => exact absurd ((endsWith_bs_iff _).mp hh) hlast
+      · exact isInfix_false_of_not_mem (List.mem_cons_self ..) (not_mem_append_dirTail hq d hqn)
+    simp only [quoteOne, hauto, heff, htail, hbody]
+    rw [wrap_text _ _ [q] d ap rfl]
+    have hnb : (name ++ dirTail d).any isLineBreak = false :=
+      noBreak_append_dirTail d (noBreak_of hB h3)
+    exact readBack_raw1 hq E (name ++ dirTail d) _ (sp_all d ap) hnb (not_mem_append_dirTail hq d hqn) hlast
+  · -- a non-raw literal: the opening is the bare quote
+    have hraw' : (isRawStart start0 || ((name.contains bs || name.contains '$') && !(name.any fun c => escapedCtrl.contains c))) = false := by
+      simpa using hraw
+    simp only [hraw', Bool.false_eq_true, if_false, List.append_eq_nil_iff, when_nil] at hg
+    obtain ⟨⟨h1, h2⟩, _⟩ := hg
+    have hs0 : start0 = [q] := by
+      rcases hst with h | h
+      · exact h
+      · subst h; simp [hr2] at hraw'
+    subst hs0
+    have hnr : needsRaw T name = false := by
+      rw [needsRaw_eq ok]; simpa [hr1] using hraw'
+    have heff : effStart T name [q] = [q] := by simp [effStart, hnr]
+    have hexp : expandPath T E (name ++ dirTail d) = name ++ dirTail d := by
+      have e1 : expandVars T E (name ++ dirTail d) = name ++ dirTail d := by simpa using h1
+      simpa [e1] using h2
+    simp only [quoteOne, hauto, heff, htail, escBody_nonraw1 ok hq]
+    rw [wrap_text _ _ [q] d ap rfl]
+    exact readBack_nonraw1 ok hq E (name ++ dirTail d) _ (sp_all d ap) (noUB_append_dirTail d hB) hexp
+
+/-- the user opened a triple quote (and the name does not contain that quote character) -/
+theorem core_q3 {T : Tables} (ok : TablesOk T) (E : Env) (name : Str) {q : Char} (hq : q = sq ∨ q = dq)
+    (dfs : Bool) (hqn : q ∉ name)
+    (hA : normName name = name) (hB : name.any (fun c => unescapedBreaks.contains c) = false)
+    (hg : styleClasses T E name [q, q, q] [q, q, q] dfs = []) :
+    readBack T E (regular T E name [q, q, q] [q, q, q] dfs true) =
+      .args [name ++ dirTail (isDirEff T E name name dfs)] := by
+  obtain ⟨hqb, _, hqs, _, hqk, _, _⟩ := quote_cases hq
+  have hr1 : isRawStart [q, q, q] = false := by rcases hq with h | h <;> subst h <;> decide
+  have hr2 : isRawStart ['r', q, q, q] = true := by simp [isRawStart]
+  generalize hd : isDirEff T E name name dfs = d at *
+  simp only [regular, hA, hd]
+  simp only [styleClasses, hA, hd, Bool.false_and, Bool.false_eq_true, if_false, List.isEmpty_cons,
+    Bool.not_false, Bool.true_and, hr1, Bool.false_or] at hg
+  have hauto : autoQuote T name [q, q, q] [q, q, q] = ([q, q, q], [q, q, q]) := by simp [autoQuote]
+  have htail : tailOf [q, q, q] d = dirTail d := tailOf_quoted rfl d
+  have hv : (if d = true then ['/'] else ([] : Str)) = dirTail d := rfl
+  rw [hv] at hg
+  have hwrap : ∀ (start body : Str), wrap start [q, q, q] body d true =
+      start ++ (body ++ q :: q :: q :: (if !d then [' '] else [])) := by
+    intro start body; cases d <;> simp [wrap]
+  have hsp : (if !d then [' '] else ([] : Str)).all (· == ' ') = true := by cases d <;> rfl
+  by_cases hraw : ((name.contains bs || name.contains '$') && !(name.any fun c => escapedCtrl.contains c)) = true
+  · simp only [hraw, if_true, List.append_eq_nil_iff, when_nil] at hg
+    obtain ⟨⟨⟨⟨⟨h1, _⟩, h3⟩, _⟩, _⟩, _⟩ := hg
+    have heff : effStart T name [q, q, q] = ['r', q, q, q] := by
+      have : needsRaw T name = true := by rw [needsRaw_eq ok]; exact hraw
+      simp [effStart, hr1, this]
+    have hctrl : hasCtrl T name = false := by rw [ok.hasCtrl_eq]; exact h3
+    have hlast : (name ++ dirTail d).getLast? ≠ some bs := by
+      apply getLast?_append_dirTail
+      intro hdf
+      rw [hdf] at h1
+      intro hl
+      have := (endsWith_bs_iff name).mpr hl
+      simp [this] at h1
+    have hbody : escBody T name ['r', q, q, q] [q, q, q] (name ++ dirTail d) = name ++ dirTail d := by
+      apply escBody_raw _ _ _ _ _ _ hctrl hr2
+      · cases hh : endsWith (name ++ dirTail d) [bs] with
+        | false => rfl
+        | true => exact absurd ((endsWith_bs_iff _).mp hh) hlast
+      · exact isInfix_false_of_not_mem (List.mem_cons_self ..) (not_mem_append_dirTail hq d hqn)
+    simp only [quoteOne, hauto, heff, htail, hbody, hwrap]
+    exact readBack_raw3 hq E (name ++ dirTail d) _ hsp (noBreak_append_dirTail d (noBreak_of hB h3))
+      (not_mem_append_dirTail hq d hqn) hlast
+  · have hraw' : ((name.contains bs || name.contains '$') && !(name.any fun c => escapedCtrl.contains c)) = false := by
+      simpa using hraw
+    simp only [hraw', Bool.false_eq_true, if_false, List.append_eq_nil_iff, when_nil] at hg
+    obtain ⟨⟨h1, h2⟩, _⟩ := hg
+    have hnr : needsRaw T name = false := by rw [needsRaw_eq ok]; exact hraw'
+    have heff : effStart T name [q, q, q] = [q, q, q] := by simp [effStart, hnr]
+    have hexp : expandPath T E (name ++ dirTail d) = name ++ dirTail d := by
+      have e1 : expandVars T E (name ++ dirTail d) = name ++ dirTail d := by simpa using h1
+      simpa [e1] using h2
+    simp only [quoteOne, hauto, heff, htail, escBody_nonraw3 ok hq name d hqn, hwrap]
+    exact readBack_nonraw3 ok hq E (name ++ dirTail d) _ hsp (noUB_append_dirTail d hB) hexp
+
+theorem quoteToUseRef_cases (s : Str) : quoteToUseRef s = [sq] ∨ quoteToUseRef s = [dq] := by
+  unfold quoteToUseRef
+  split <;> simp
+
+/-- characters of a name that needs no quotes -/
+theorem plain_chars {T : Tables} (ok : TablesOk T) {s : Str} (hn : needsQuotes T s = false) :
+    s.any (fun c => bareUnsafe.contains c) = false := by
+  simp only [needsQuotes, Bool.or_eq_false_iff] at hn
+  obtain ⟨⟨h1, _⟩, h3⟩ := hn
+  rw [List.any_eq_false] at h1 ⊢
+  intro c hc hu
+  have := List.all_eq_true.mp ok.unsafeSpecial c (List.contains_iff_mem.mp hu)
+  simp only [Bool.or_eq_true, beq_iff_eq] at this
+  rcases this with e | e
+  · subst e
+    rw [List.contains_iff_mem.mpr hc] at h3
+    exact absurd h3 (by decide)
+  · exact h1 c hc e
+
+/-- nothing opened -/
+theorem core_bare {T : Tables} (ok : TablesOk T) (E : Env) (name : Str) (hname : name ≠ []) (dfs : Bool)
+    (hA : normName name = name) (hB : name.any (fun c => unescapedBreaks.contains c) = false)
+    (hg : styleClasses T E name [] [] dfs = []) :
+    readBack T E (regular T E name [] [] dfs true) = .args [name ++ dirTail (isDirEff T E name name dfs)] := by
+  by_cases hn : needsQuotes T name = true
+  · -- the completer chooses a quote itself: as if the user had opened it
+    have hqu : T.quoteToUse name = quoteToUseRef name := ok.quoteToUse name
+    have hreg : regular T E name [] [] dfs true = regular T E name (quoteToUseRef name) (quoteToUseRef name) dfs true := by
+      simp only [regular, hA]
+      rw [quoteOne_auto _ _ _ hn (by rw [hqu]; rcases quoteToUseRef_cases name with h | h <;> rw [h] <;> rfl), hqu]
+    have hcls : styleClasses T E name (quoteToUseRef name) (quoteToUseRef name) dfs = [] := by
+      rw [← hg]
+      rcases quoteToUseRef_cases name with h | h <;>
+        simp [styleClasses, hA, hn, h]
+    rw [hreg]
+    rcases quoteToUseRef_cases name with h | h <;> rw [h] at hcls ⊢
+    · simpa using core_q1 ok E name (Or.inl rfl) [sq] (Or.inl rfl) dfs true hA hB hcls
+    · simpa using core_q1 ok E name (Or.inr rfl) [dq] (Or.inl rfl) dfs true hA hB hcls
+  · have hn' : needsQuotes T name = false := by simpa using hn
+    have hsafe := plain_chars ok hn'
+    generalize hd : isDirEff T E name name dfs = d at *
+    simp only [styleClasses, hA, hd, hn', Bool.and_false, Bool.false_eq_true, if_false, List.isEmpty_nil, if_true,
+      List.append_eq_nil_iff, when_nil] at hg
+    obtain ⟨⟨⟨h1, h2⟩, h3⟩, h4⟩ := hg
+    have hv : (if d = true then ['/'] else ([] : Str)) = dirTail d := rfl
+    rw [hv] at h4
+    have hexp : expandPath T E (name ++ dirTail d) = name ++ dirTail d := by simpa using h4
+    have hbang : bangSplit name = none := by
+      cases hb : bangSplit name with
+      | none => rfl
+      | some x => simp [hb] at h1
+    -- no control characters: they are special
+    have hctrl : hasCtrl T name = false := by
+      rw [ok.hasCtrl_eq, List.any_eq_false]
+      intro c hc hk
+      have hu : bareUnsafe.contains c = true := by
+        have : c ∈ escapedCtrl := List.contains_iff_mem.mp hk
+        simp only [escapedCtrl, List.mem_cons, List.mem_nil_iff, or_false] at this
+        rcases this with e | e | e | e | e <;> subst e <;> decide
+      exact List.any_eq_false.mp hsafe c hc hu
+    have hnb : name.any isLineBreak = false := by
+      rw [List.any_eq_false]
+      intro c hc hb
+      rcases lineBreak_cases hb with h | h
+      · have hu : bareUnsafe.contains c = true := by
+          have : c ∈ escapedCtrl := List.contains_iff_mem.mp h
+          simp only [escapedCtrl, List.mem_cons, List.mem_nil_iff, or_false] at this
+          rcases this with e | e | e | e | e <;> subst e <;> decide
+        exact List.any_eq_false.mp hsafe c hc hu
+      · exact List.any_eq_false.mp hB c hc h
+    have hkw : readerKeywords.contains name = false := by
+      cases hk : readerKeywords.contains name with
+      | false => rfl
+      | true =>
+        have := List.all_eq_true.mp ok.kwQuoted name (List.contains_iff_mem.mp hk)
+        rw [hn'] at this
+        exact absurd this (by decide)
+    simp only [regular, hA, hd, quoteOne_bare name d true hn' hctrl]
+    have hslash := ok.slashPlain
+    simp only [Bool.or_eq_false_iff] at hslash
+    cases d with
+    | false =>
+      have := readBack_bare (T := T) E name [' '] (Or.inr rfl) hname hsafe hnb hbang h2 hkw h3 (by simpa [dirTail] using hexp)
+      simpa [dirTail] using this
+    | true =>
+      have hw : name ++ ['/'] ≠ [] := by simp
+      have hsafe' : (name ++ ['/']).any (fun c => bareUnsafe.contains c) = false :=
+        any_append_false hsafe (by decide)
+      have hnb' : (name ++ ['/']).any isLineBreak = false := any_append_false hnb (by decide)
+      have hodd' : (name ++ ['/']).any (oddChar T) = false := any_append_false h2 (by simp [hslash.1])
+      have hkw' : readerKeywords.contains (name ++ ['/']) = false := by
+        cases hk : readerKeywords.contains (name ++ ['/']) with
+        | false => rfl
+        | true =>
+          have hm := List.contains_iff_mem.mp hk
+          simp only [readerKeywords, List.mem_cons, List.mem_nil_iff, or_false] at hm
+          rcases hm with e | e
+          · have := congrArg List.getLast? e
+            simp at this
+          · have := congrArg List.getLast? e
+            simp at this
+      have := readBack_bare (T := T) E (name ++ ['/']) [] (Or.inl rfl) hw hsafe' hnb' (bangSplit_snoc_slash name hbang)
+        hodd' hkw' (pyStmt_snoc_slash name hname h3) (by simpa [dirTail] using hexp)
+      simpa [dirTail] using this
+
 end PathQuote
